@@ -68,6 +68,7 @@ class UnitResult:
         self.cmd = ""
         self.gen_path = ""
         self.dropped = []
+        self.retries = 0
 
     def to_json(self):
         return {k: getattr(self, k) for k in (
@@ -166,6 +167,33 @@ def run_unit(name, template, rlimit=30, canaries=True, threads=None):
         vr = main_f.result()
         cres = {v: f.result() for v, f in can_f.items()}
 
+    # A proof found under any solver seed is a proof: re-run failing units with other seeds and keep
+    # only the obligations that fail every time (guards against solver instability, never hides a
+    # real failure: an obligation that cannot be proved fails under every seed).
+    retries = 0
+    if vr.status == "violation":
+        def _ids(v):
+            return {(short_kind(d.message), lines[d.primary_line() - 1].text.strip() if d.primary_line() and d.primary_line() <= len(lines) else "")
+                    for d in v.semantic}
+        keep = _ids(vr)
+        for seed in (17, 4242):
+            retries += 1
+            v2 = verus.run(gen, rlimit * 2, ["--smt-option", "smt.random_seed=%d" % seed], threads)
+            if v2.status == "ok":
+                vr = v2
+                keep = set()
+                break
+            if v2.status == "violation":
+                keep &= _ids(v2)
+                if not keep:
+                    # every obligation was proved under some seed, but never all in one run: undecided
+                    vr.status = "undecided"
+                    vr.reason = "unstable proof: failing obligations differ between solver seeds"
+                    vr.semantic = []
+                    break
+        if vr.status == "violation":
+            vr.semantic = [d for d in vr.semantic if (short_kind(d.message), lines[d.primary_line() - 1].text.strip() if d.primary_line() and d.primary_line() <= len(lines) else "") in keep]
+    res.retries = retries
     res.cmd = vr.cmd
     res.verus_functions = vr.functions
     res.smt_s = vr.smt_ms / 1000.0
